@@ -40,6 +40,14 @@ type script struct {
 	Cuts      []int      `json:"cuts"`
 	PChunks   []pchunk   `json:"pchunks"`
 	Construct bool       `json:"construct"`
+	FaultAt   int        `json:"faultat"` // > 0: replay exactly this fault point (TLC's behaviours with a fault)
+}
+
+type literal struct {
+	Sid     int    `json:"sid"`
+	K       int    `json:"k"`
+	F       int    `json:"f"`
+	Replies string `json:"replies"`
 }
 
 type pchunk struct {
@@ -276,11 +284,12 @@ func modeScripts(in string, out string, verbose bool) {
 
 	type job struct{ ci, si int }
 	type jobOut struct {
-		row    rowOut
-		tr     *wTrace
-		all    []byte
-		faults []runResult
-		ncalls int
+		row     rowOut
+		tr      *wTrace
+		all     []byte
+		faults  []runResult
+		ncalls  int
+		literal *literal
 	}
 	var jobs []job
 	for ci, c := range inp.Cfgs {
@@ -294,93 +303,112 @@ func modeScripts(in string, out string, verbose bool) {
 			jobs = append(jobs, job{ci, si})
 		}
 	}
-	outs := make([]jobOut, len(jobs))
-	parallel(len(jobs), func(ji int) {
-		ci, s := jobs[ji].ci, inp.Scripts[jobs[ji].si]
-		c := inp.Cfgs[ci]
-		rc, _ := cfgForScript(c, s)
-		calls := make([][]byte, len(s.Calls))
-		var all []byte
-		for i, cl := range s.Calls {
-			calls[i] = make([]byte, len(cl))
-			for j, sym := range cl {
-				calls[i][j] = symToByte(sym)
+	literals := []literal{}
+	const batch = 20000 // bounds the memory held between the parallel phase and the (deterministic, sequential) merge
+	for b0 := 0; b0 < len(jobs); b0 += batch {
+		b1 := b0 + batch
+		if b1 > len(jobs) {
+			b1 = len(jobs)
+		}
+		jobs := jobs[b0:b1]
+		outs := make([]jobOut, len(jobs))
+		parallel(len(jobs), func(ji int) {
+			ci, s := jobs[ji].ci, inp.Scripts[jobs[ji].si]
+			c := inp.Cfgs[ci]
+			rc, _ := cfgForScript(c, s)
+			calls := make([][]byte, len(s.Calls))
+			var all []byte
+			for i, cl := range s.Calls {
+				calls[i] = make([]byte, len(cl))
+				for j, sym := range cl {
+					calls[i][j] = symToByte(sym)
+				}
+				all = append(all, calls[i]...)
 			}
-			all = append(all, calls[i]...)
-		}
-		resources := resourcesFor(rc, all)
-		r := runWriter(rc, calls, resources, 0)
-		row := rowOut{Sid: s.Sid, Cfg: ci + 1, Replies: r.Replies, Panic: r.Panic, CutDev: r.CutDev, Ops: r.Ops,
-			Chunks: []pchunk{}, Readback: []string{}}
-		if r.Replies == nil {
-			row.Replies = []string{}
-		}
-		o := &outs[ji]
-		closeOK := len(r.Replies) > len(calls) && r.Replies[len(calls)] == "ok"
-		if closeOK {
-			o.tr = walkFile(r.File)
-			row.Chunks, row.HasChunks = chunksOfTrace(o.tr)
-			rb, err := readBack(r.File, resources, rc)
-			row.ReadOK = err == nil
-			if err != nil {
-				row.ReadErr = err.Error()
+			resources := resourcesFor(rc, all)
+			r := runWriter(rc, calls, resources, 0)
+			row := rowOut{Sid: s.Sid, Cfg: ci + 1, Replies: r.Replies, Panic: r.Panic, CutDev: r.CutDev, Ops: r.Ops,
+				Chunks: []pchunk{}, Readback: []string{}}
+			if r.Replies == nil {
+				row.Replies = []string{}
 			}
-			row.Readback = bytesToSyms(rb)
-			row.PredMatch = row.HasChunks && samePChunks(row.Chunks, s.PChunks)
-		}
-		if verbose {
-			row.Errs = r.Errs
-			row.FileHex = hex.EncodeToString(r.File)
-		}
-		row.NCalls, row.Construct = len(calls), s.Construct
-		row.Class = fmt.Sprintf("%s/%s/%s/res%d", s.Kind, rc.Codec, rc.Guise, btoi(rc.Res > 0))
-		row.Count, row.Samples = 1, [][2]int{{s.Sid, ci + 1}}
-		o.row, o.all, o.ncalls = row, all, len(calls)
-		if c.Faults {
-			for k := 1; k <= r.Ops; k++ {
-				fr := runWriter(rc, calls, resources, k)
+			o := &outs[ji]
+			closeOK := len(r.Replies) > len(calls) && r.Replies[len(calls)] == "ok"
+			if closeOK {
+				o.tr = walkFile(r.File)
+				row.Chunks, row.HasChunks = chunksOfTrace(o.tr)
+				rb, err := readBack(r.File, resources, rc)
+				row.ReadOK = err == nil
+				if err != nil {
+					row.ReadErr = err.Error()
+				}
+				row.Readback = bytesToSyms(rb)
+				row.PredMatch = row.HasChunks && samePChunks(row.Chunks, s.PChunks)
+			}
+			if verbose {
+				row.Errs = r.Errs
+				row.FileHex = hex.EncodeToString(r.File)
+			}
+			row.NCalls, row.Construct = len(calls), s.Construct
+			row.Class = fmt.Sprintf("%s/%s/%s/res%d", s.Kind, rc.Codec, rc.Guise, btoi(rc.Res > 0))
+			row.Count, row.Samples = 1, [][2]int{{s.Sid, ci + 1}}
+			o.row, o.all, o.ncalls = row, all, len(calls)
+			if c.Faults && s.FaultAt > 0 {
+				fr := runWriter(rc, calls, resources, s.FaultAt)
 				fr.File = nil
 				o.faults = append(o.faults, fr)
-			}
-		}
-	})
-	for ji := range outs {
-		o := &outs[ji]
-		row, ci := o.row, jobs[ji].ci
-		if o.tr != nil {
-			row.Trace = ts.add(o.tr, [2]int{row.Sid, ci + 1})
-		}
-		predTotal[ci]++
-		if row.PredMatch {
-			predOK[ci]++
-		}
-		if verbose {
-			rows = append(rows, row)
-		} else {
-			kb, _ := json.Marshal([]interface{}{o.all, row.NCalls, row.Replies, row.Panic, row.HasChunks, row.Chunks, row.ReadOK,
-				row.Readback, row.Trace == 0, row.Construct, row.Class, row.ReadErr != ""})
-			if i, ok := rowIdx[string(kb)]; ok {
-				rows[i].Count++
-				if len(rows[i].Samples) < 4 {
-					rows[i].Samples = append(rows[i].Samples, [2]int{row.Sid, ci + 1})
+				o.literal = &literal{Sid: s.Sid, K: s.FaultAt, F: fr.FiredCall, Replies: compact(fr.Replies, len(calls)+2)}
+			} else if c.Faults {
+				for k := 1; k <= r.Ops; k++ {
+					fr := runWriter(rc, calls, resources, k)
+					fr.File = nil
+					o.faults = append(o.faults, fr)
 				}
-			} else {
-				rowIdx[string(kb)] = len(rows)
+			}
+		})
+		for ji := range outs {
+			if outs[ji].literal != nil {
+				literals = append(literals, *outs[ji].literal)
+			}
+		}
+		for ji := range outs {
+			o := &outs[ji]
+			row, ci := o.row, jobs[ji].ci
+			if o.tr != nil {
+				row.Trace = ts.add(o.tr, [2]int{row.Sid, ci + 1})
+			}
+			predTotal[ci]++
+			if row.PredMatch {
+				predOK[ci]++
+			}
+			if verbose {
 				rows = append(rows, row)
+			} else {
+				kb, _ := json.Marshal([]interface{}{o.all, row.NCalls, row.Replies, row.Panic, row.HasChunks, row.Chunks, row.ReadOK,
+					row.Readback, row.Trace == 0, row.Construct, row.Class, row.ReadErr != ""})
+				if i, ok := rowIdx[string(kb)]; ok {
+					rows[i].Count++
+					if len(rows[i].Samples) < 4 {
+						rows[i].Samples = append(rows[i].Samples, [2]int{row.Sid, ci + 1})
+					}
+				} else {
+					rowIdx[string(kb)] = len(rows)
+					rows = append(rows, row)
+				}
+			}
+			runs++
+			for k, fr := range o.faults {
+				faultRuns++
+				if fr.FiredCall != 0 {
+					faultFired++
+					opKinds[fr.FiredOp]++
+				}
+				ss.add(o.ncalls+2, o.ncalls+1, fr, fmt.Sprintf("sid=%d cfg=%d k=%d", row.Sid, ci+1, k+1))
 			}
 		}
-		runs++
-		for k, fr := range o.faults {
-			faultRuns++
-			if fr.FiredCall != 0 {
-				faultFired++
-				opKinds[fr.FiredOp]++
-			}
-			ss.add(o.ncalls+2, o.ncalls+1, fr, fmt.Sprintf("sid=%d cfg=%d k=%d", row.Sid, ci+1, k+1))
-		}
-	}
+	} // batches
 	writeOut(out, map[string]interface{}{
-		"rows": rows, "traces": ts.traces, "tracesamples": ts.samples, "shapes": ss.list(),
+		"rows": rows, "traces": ts.traces, "tracesamples": ts.samples, "shapes": ss.list(), "literals": literals,
 		"stats": map[string]interface{}{"fault_runs": faultRuns, "fault_fired": faultFired, "fault_ops": opKinds, "rows": len(rows),
 			"runs": runs, "traces": len(ts.traces), "pred_ok": predOK, "pred_total": predTotal},
 	})
@@ -447,28 +475,28 @@ type realJob struct {
 }
 
 type realRow struct {
-	Job       int    `json:"job"`
-	Name      string `json:"name"`
-	NCalls    int    `json:"ncalls"`
-	Replies   string `json:"replies"` // first error position etc. are in here: O/E per call
-	AllOK     bool   `json:"allok"`
-	Panic     string `json:"panic"`
-	OrigLen   int    `json:"origlen"`
-	OrigSha   string `json:"origsha"`
-	ReadOK    bool   `json:"readok"`
-	ReadErr   string `json:"readerr"`
-	ReadLen   int    `json:"readlen"`
-	ReadSha   string `json:"readsha"`
-	FirstDiff int    `json:"firstdiff"`
-	Trace     int    `json:"trace"`
-	NChunks   int    `json:"nchunks"`
-	CSize     int    `json:"csize"`
-	Ops       int    `json:"ops"`
-	ShiftedOK bool   `json:"shiftedok"` // only meaningful when the round trip failed: it succeeds once no Write starts with a zero byte
-	ShiftRun  bool   `json:"shiftrun"`
-	FirstErr  string `json:"firsterr"`
+	Job       int     `json:"job"`
+	Name      string  `json:"name"`
+	NCalls    int     `json:"ncalls"`
+	Replies   string  `json:"replies"` // first error position etc. are in here: O/E per call
+	AllOK     bool    `json:"allok"`
+	Panic     string  `json:"panic"`
+	OrigLen   int     `json:"origlen"`
+	OrigSha   string  `json:"origsha"`
+	ReadOK    bool    `json:"readok"`
+	ReadErr   string  `json:"readerr"`
+	ReadLen   int     `json:"readlen"`
+	ReadSha   string  `json:"readsha"`
+	FirstDiff int     `json:"firstdiff"`
+	Trace     int     `json:"trace"`
+	NChunks   int     `json:"nchunks"`
+	CSize     int     `json:"csize"`
+	Ops       int     `json:"ops"`
+	ShiftedOK bool    `json:"shiftedok"` // only meaningful when the round trip failed: it succeeds once no Write starts with a zero byte
+	ShiftRun  bool    `json:"shiftrun"`
+	FirstErr  string  `json:"firsterr"`
 	ZeroFrac  float64 `json:"zerofrac"`
-	ResUsed   int    `json:"resused"`
+	ResUsed   int     `json:"resused"`
 }
 
 func genPayload(rng *rand.Rand, n int, zero float64) []byte {
